@@ -324,6 +324,11 @@ func c11Gen(g *core.Gen) {
 		g.Emit(&c11Case{Kind: "structured", N: n})
 	}
 	g.Emit(&c11Case{Kind: "times"})
+	// every field element against every boundary value, as one outer product in each orientation (sharded by
+	// the high nibble of the element so the chunks run in parallel)
+	for lo := 0; lo < 16; lo++ {
+		g.Emit(&c11Case{Kind: "times_all", Lo: int64(lo)})
+	}
 	g.Emit(&c11Case{Kind: "churn"})
 	// the same families with the SSSE3 dispatch flag forced off (Matrix row operations then use the scalar kernels)
 	g.Emit(&c11Case{Kind: "all", N: 2, Lo: 0, Hi: 1296, A: full, NoSSSE3: true})
@@ -443,6 +448,44 @@ func c11Run(ci interface{}, r *core.Rec) {
 		r.AddStates(cnt)
 		r.Outcome("churn")
 		r.NontrivialCase()
+	case "times_all":
+		// (column of 4096 consecutive field elements) x (row of boundary values): the 4096 x B product holds every a*b;
+		// and (column of boundary values) x (row of the 4096 elements) for the other operand order
+		bset := map[uint16]bool{0: true, 1: true, 0xffff: true, 0x100b & 0xffff: true, 0x00ff: true}
+		for k := 1; k < 16; k++ {
+			bset[uint16(1)<<k] = true
+			bset[uint16(1)<<k-1] = true
+			bset[uint16(1)<<k+1] = true
+			bset[^(uint16(1) << k)] = true
+		}
+		var bs []uint16
+		for v := 0; v < 1<<16; v++ {
+			if bset[uint16(v)] {
+				bs = append(bs, uint16(v))
+			}
+		}
+		col := lin.New(4096, 1)
+		row := lin.New(1, len(bs))
+		for i := range col {
+			col[i][0] = uint16(int(c.Lo)*4096 + i)
+		}
+		copy(row[0], bs)
+		c11CheckTimes(r, col, row)
+		c11CheckTimes(r, lin.Transpose(row), lin.Transpose(col))
+		// and as inner products: 1 x B times B x 1 sums of boundary x element, compared term sets of size 1..B
+		for i := 0; i < 4096; i += 257 {
+			a := lin.New(1, len(bs))
+			b := lin.New(len(bs), 1)
+			copy(a[0], bs)
+			for j := range b {
+				b[j][0] = uint16(int(c.Lo)*4096 + i + j*31)
+			}
+			c11CheckTimes(r, a, b)
+			c11CheckTimes(r, lin.Transpose(b), lin.Transpose(a))
+		}
+		r.AddStates(2 * 4096 * len(bs))
+		r.Outcome("times_all")
+		r.NontrivialCase()
 	case "times":
 		alpha := []uint16{0, 1, 2, 0xffff}
 		cnt := 0
@@ -550,7 +593,7 @@ func init() {
 	core.Register(&core.Prop{
 		ID:    "C11",
 		Level: "model_checking",
-		Rule: "bounded-exhaustive matrices: EVERY n x n matrix over an alphabet (n=1,2 over {0,1,2,3,0x100b,0xffff}; n=3 over {0,1,2,0xffff}; n=4 over {0,1}, thorough over {0,1,2} = 3^16); every permutation matrix and permutation x diagonal for n<=7; for n in 5..40,100(,300): Vandermonde, Cauchy, triangular, rank n-1 with the dependent row at every position, a needed row swap at every pivot position (adjacent and with the last row), a zero column at every position; RowReduceForInverse with N=I and a non-square N; Times on every pair of shapes <=3x3x3 over a 4-symbol alphabet and on 2 x k x 3 / 3 x k x 2 products for inner dimensions k around every power of two from 16 to 512 (dense rows, one zero per row, one non-zero per row). " +
+		Rule: "bounded-exhaustive matrices: EVERY n x n matrix over an alphabet (n=1,2 over {0,1,2,3,0x100b,0xffff}; n=3 over {0,1,2,0xffff}; n=4 over {0,1}, thorough over {0,1,2} = 3^16); every permutation matrix and permutation x diagonal for n<=7; for n in 5..40,100(,300): Vandermonde, Cauchy, triangular, rank n-1 with the dependent row at every position, a needed row swap at every pivot position (adjacent and with the last row), a zero column at every position; RowReduceForInverse with N=I and a non-square N; Times on every pair of shapes <=3x3x3 over a 4-symbol alphabet and on 2 x k x 3 / 3 x k x 2 products for inner dimensions k around every power of two from 16 to 512 (dense rows, one zero per row, one non-zero per row); every field element times every boundary value (2^k, 2^k-1, 2^k+1, ^2^k, 0, 1, 0xffff) in both operand orders as 4096 x 1 x B outer products. " +
 			"Every other operand is built by NewMatrixFromSlice over a window of a reused arena that is overwritten right after construction. Oracle: reference determinant (cofactor) and adjugate for n<=4, reference elimination rank + products for larger n; operands compared element-wise before/after each call, and the operands of the last 12 calls (successful or failed) again after every later call. non-trivial = chunk containing both singular and non-singular matrices / structured family",
 		Assumptions: []string{"ref/lin uses a different elimination order (last candidate pivot) and cofactor expansion; it shares only ref/gf16 with nothing of gopar"},
 		NewCase:     func() interface{} { return &c11Case{} },
